@@ -2,7 +2,7 @@
 """Prototype: path-forking symbolic executor for LLVM-14 IR (typed pointers) on z3.
 usage: python3-vt llsym.py mod.ll entry [--fp real|ieee] [--maxsteps N]
 """
-import sys, time, copy, struct, re
+import sys, os, time, copy, struct, re
 sys.setrecursionlimit(10000)
 import z3
 from ir2c import parse_module, T, V, PTR, I1, I8, I32, I64
@@ -420,10 +420,12 @@ class Exec:
         items = [(c,) + s.vars_of(c)[:2] for c in st.pc]
         cone = set(cv); chosen = []; changed = True; rest = [it for it in items if not it[2]]
         while changed:
-            changed = False
-            for it in list(rest):
+            changed = False; keep = []
+            for it in rest:
                 if it[1] & cone or not it[1]:
-                    chosen.append(it[0]); cone |= it[1]; rest.remove(it); changed = True
+                    chosen.append(it[0]); cone |= it[1]; changed = True
+                else: keep.append(it)
+            rest = keep
         s.stats['queries'] += 1; s.stats['relaxed_queries'] = s.stats.get('relaxed_queries', 0) + 1
         t0 = time.time()
         rs = s.__dict__.get('_rsolver')
@@ -464,10 +466,12 @@ class Exec:
         items = [(c,) + s.vars_of(c)[:2] for c in st.pc]
         cone = set(cv); chosen = []; changed = True; rest = list(items)
         while changed:
-            changed = False
-            for it in list(rest):
+            changed = False; keep = []
+            for it in rest:
                 if it[1] & cone or not it[1]:
-                    chosen.append(it[0]); cone |= it[1]; rest.remove(it); changed = True
+                    chosen.append(it[0]); cone |= it[1]; changed = True
+                else: keep.append(it)
+            rest = keep
         if not rest: return False          # nothing would be left out
         s.stats['queries'] += 1; s.stats['relaxed_queries'] = s.stats.get('relaxed_queries', 0) + 1
         t0 = time.time()
@@ -630,8 +634,27 @@ class Exec:
             fr.loc[n] = a
         st.frames.append(fr)
 
+    def run_ctors(s):
+        """execute the module's static constructors (llvm.global_ctors) once, concretely, to obtain the initial state of every entry"""
+        st = s.init_state()
+        g = s.m.globals.get('llvm.global_ctors')
+        fns = []
+        if g is not None and g['init'] is not None and g['init'].k == 'agg':
+            for e in g['init'].elems:
+                prio = e.elems[0].val; f = e.elems[1]
+                while f.k == 'cexpr': f = f.ops[0]
+                if f.k == 'global': fns.append((prio, f.name))
+        for prio, fn in sorted(fns, key=lambda x: x[0]):
+            if fn not in s.m.funcs or s.m.funcs[fn]['blocks'] is None: continue
+            s.call_fn(st, fn, [], None)
+            work = []
+            try: out = s.run_path(st, work)
+            except PathEnd as e: raise Violation('unsupported', 'static constructor %s ended with %s' % (fn, e), st)
+            if work: raise Violation('unsupported', 'static constructor %s forked' % fn, st)
+        s.base_state = st
+
     def run(s, entry):
-        st0 = s.init_state()
+        st0 = s.base_state.fork() if getattr(s, 'base_state', None) is not None else s.init_state()
         s.call_fn(st0, entry, [], None)
         work = [st0]
         results = []
@@ -1066,7 +1089,7 @@ class Exec:
         return v
 
     def builtin(s, st, fr, name, a, x, work):
-        if name.startswith('llvm.lifetime') or name.startswith('llvm.experimental.noalias') or name.startswith('llvm.assume') or name in ('__cxa_atexit',): return 0
+        if name.startswith('llvm.lifetime') or name.startswith('llvm.invariant') or name.startswith('llvm.experimental.noalias') or name.startswith('llvm.assume') or name in ('__cxa_atexit',): return 0
         if name.startswith('nondet_'):
             w = x['ty'].bits
             if w == 1:
@@ -1362,12 +1385,14 @@ class Exec:
         if name == '__cxa_throw':
             ti = a[1]
             st.exc = (a[0], st.objs[ti.obj].name if ti.obj in st.objs else '?')
+            if os.environ.get('VERIF_DEBUG_THROW'): sys.stderr.write('THROW %s at %s\n' % (st.exc[1], [f.fn for f in st.frames]))
             raise Throw()
         if name.startswith('_ZSt') and '__throw_' in name:
             m2 = {'length_error': '_ZTISt12length_error', 'out_of_range': '_ZTISt12out_of_range', 'bad_alloc': '_ZTISt9bad_alloc', 'invalid_argument': '_ZTISt16invalid_argument',
                   'logic_error': '_ZTISt11logic_error', 'bad_function_call': '_ZTISt17bad_function_call', 'bad_array_new_length': '_ZTISt9bad_alloc', 'bad_cast': '_ZTISt8bad_cast'}
             ti = [v for k, v in m2.items() if k in name]
             st.exc = (Ptr(s.new_obj(st, 16, 'exception'), 0), ti[0] if ti else '_ZTISt9exception')
+            if os.environ.get('VERIF_DEBUG_THROW'): sys.stderr.write('THROW %s at %s\n' % (name, [f.fn for f in st.frames]))
             raise Throw()
         if name == '__cxa_rethrow': raise Throw()
         if name == '__cxa_begin_catch': return a[0]
@@ -1434,7 +1459,7 @@ def main():
     ap.add_argument('ll'); ap.add_argument('entry')
     ap.add_argument('--fp', default='real'); ap.add_argument('--maxsteps', type=int, default=400000); ap.add_argument('--loopmax', type=int, default=64)
     ap.add_argument('--json'); ap.add_argument('--timeout', type=float, default=0); ap.add_argument('--qtimeout', type=int, default=15000); ap.add_argument('--qtimeout2', type=int, default=120000)
-    ap.add_argument('--allow-uncaught', action='store_true'); ap.add_argument('--trace', action='store_true')
+    ap.add_argument('--allow-uncaught', action='store_true'); ap.add_argument('--trace', action='store_true'); ap.add_argument('--ctors', action='store_true')
     a = ap.parse_args()
     t0 = time.time()
     m = parse_module(open(a.ll).read())
@@ -1443,7 +1468,11 @@ def main():
     ex.deadline = t0 + a.timeout if a.timeout else None
     ex.allow_uncaught = a.allow_uncaught; ex.trace = a.trace
     status = 'OK'; v = None; results = []; allsamples = []; per_entry = {}
-    for ent in a.entry.split(','):
+    if a.ctors:
+        try: ex.run_ctors()
+        except Violation as v0:
+            status = 'VIOLATION'; v = v0; v.msg = '[static constructors] ' + v.msg
+    for ent in (a.entry.split(',') if v is None else []):
         if ent not in m.funcs or m.funcs[ent]['blocks'] is None:
             status = 'VIOLATION'; v = Violation('unsupported', 'entry %s not defined in module' % ent, None); break
         q0 = ex.stats['queries']; c0 = ex.stats['assert_checks']
